@@ -36,7 +36,8 @@ LEVEL_TEXT = ('Every fault kind is injected at every (variable, pass) position u
               'scripted faults to real NumPy behaviour.')
 LEVEL_NOTE = 'Trusted: refsolver.py, scripted.py. Not covered: faults beyond max_iter bound, more than one fault per run (except heal).'
 
-FAULTS = [['set', 'nan'], ['set', 'inf'], ['set', '-inf'], 'warn', ['raise', 'ZeroDivisionError'], ['raise', 'KeyError']]
+FAULTS = [['set', 'nan'], ['set', 'inf'], ['set', '-inf'], 'warn', ['raise', 'ZeroDivisionError'], ['raise', 'KeyError'],
+          ['raise', 'SolutionError'], ['raise', 'NonConvergenceError']]
 ERRORS = ['raise', 'skip', 'ignore', 'replace', 'bogus']
 
 
@@ -87,7 +88,7 @@ def gen_faults(bound):
             yield {'nvars': 2, 'n': 2, 't': 1, 'check': ['A'], 'init': {'A': [1.0, 1.0], 'B': [1.0, 'nan'], 'X': [0.0, 0.0]},
                    'script': {}, 'opts': {'min_iter': 0, 'max_iter': 2, 'tol': 0.5, 'failures': 'ignore', 'errors': errors}}
         # hook exceptions under every policy
-        for hook in ({'before': 'KeyError'}, {'after': 'ZeroDivisionError'}):
+        for hook in ({'before': 'KeyError'}, {'after': 'ZeroDivisionError'}, {'before': 'SolutionError'}, {'after': 'NonConvergenceError'}):
             for errors in ERRORS[:4]:
                 for cfe in (True, False):
                     yield {'nvars': 1, 'n': 2, 't': 0, 'hooks': hook, 'script': {},
